@@ -126,6 +126,23 @@ def run(ctx, replay_case):
         pool_bad.append((p[0], p[1], p[2], bytes(b)))                               # corrupted, strict
         pool_bad.append((p[0], p[1], p[2], bytes(b), "W"))                          # corrupted, warn mode
     nh = 300 if ctx.tier == "quick" else 3000
+    # static tie for "decoding depends on no state but the cache around encrypted()": the places where the package can keep state
+    # between two decodes (mutable default arguments, memoising decorators, globals, writes to containers that are not local to a
+    # call) are listed from the source on every run and compared with the pinned inventory.  A difference is not a violation; it
+    # says the assumption no longer stands, is reported as such if no history exhibits it, and makes the search below larger.
+    import stateinv
+    inv_now = stateinv.inventory(os.path.join(canon.REPO, "src", "tpmstream"))
+    inv_pin = json.load(open(os.path.join(os.path.dirname(os.path.dirname(os.path.dirname(os.path.abspath(__file__)))), "pinned", "state_inventory.json")))
+    inv_new = [e for e in inv_now if e not in inv_pin]
+    inv_gone = [e for e in inv_pin if e not in inv_now]
+    boost = 4 if (inv_new or inv_gone) else 1
+    nh *= boost
+    if inv_new or inv_gone:
+        ctx.violations.append({"kind": "correspondence",
+                               "what": "the static inventory of cross-call state of /repo differs from the pinned one (new: "
+                                       + "; ".join(inv_new)[:300] + (" / gone: " + "; ".join(inv_gone)[:200] if inv_gone else "") + ")",
+                               "replay": {"correspondence": "state inventory (tools/harness/stateinv.py vs pinned/state_inventory.json)",
+                                          "new": inv_new, "gone": inv_gone}})
     failures = 0
     shapes = collections.Counter()
     samples = []
@@ -215,7 +232,7 @@ def run(ctx, replay_case):
     npoison = 0
     poison_ops = []
     wf_lines = {}
-    for _ in range(60 if ctx.tier == "quick" else 600):
+    for _ in range((60 if ctx.tier == "quick" else 600) * boost):
         a_, b_ = rnd.sample(wfm, 2)
         for c_ in (a_, b_):
             if id(c_) not in wf_lines:
@@ -340,7 +357,7 @@ def run(ctx, replay_case):
                 "half-way between two decodes of the same message or structure; decodes of equal arguments must yield == event lists and == objects, and the type "
                 "rebuilt by events_to_obj must be the decoder's; non-trivial = at least two different encrypted areas in the history",
         "samples": samples,
-        "correspondence": {"cache_capacity_read_from_source": cap, "model": "Cache.run over the class names of the history"},
+        "correspondence": {"state_inventory": {"entries": inv_now, "new_vs_pinned": inv_new, "gone_vs_pinned": inv_gone}, "cache_capacity_read_from_source": cap, "model": "Cache.run over the class names of the history"},
         "distribution": {"shapes": dict(shapes), "encrypted_area_kinds": len(pool_enc), "classes_under_encryption": len(pool_all), "failures": failures},
     })
 
